@@ -48,7 +48,7 @@ def scenario_writes(rng, module, cfg, hostile=False):
     kind = rng.choice(kinds)
     msg, _valid = _message(rng, module, sd, params, kind)
     base = rng.choice([0, 0, 1, 3, 5, 8])
-    ops = [{"op": "reset"}, {"op": "alloc", "arena": "tx", "hex": msg.hex(), "base": base}]
+    ops = [{"op": "reset"}, {"op": "alloc", "arena": "tx", "hex": msg.hex(), "base": base, "content": kind}]
     ob = {"op": "observe", "struct": st, "params": params, "arena": "tx", "off": 0, "len": len(msg)}
     al = bool(cfg.get("aligned") and base % cfg["aligned"] == 0 and rng.random() < 0.7)
     if al:
@@ -83,8 +83,9 @@ def scenario_copy(rng, module, cfg, hostile=False):
     sd = module.struct(st)
     params = scen.draw_params(rng, sd)
     kinds = ["valid", "valid", "valid", "broken", "truncated", "flipped"] + (["garbage"] * 2 if hostile else [])
-    a, a_valid = _message(rng, module, sd, params, rng.choice(kinds))
-    ops = [{"op": "reset"}]
+    akind = rng.choice(kinds)
+    a, a_valid = _message(rng, module, sd, params, akind)
+    ops = [{"op": "reset"}, {"op": "note", "content": akind}]
     mode = rng.choice(["separate", "separate", "overlap", "equal_variants"])
     if mode == "overlap" and len(a) > 0:
         # receiver-side compaction: source and destination share one arena, shifted by d
@@ -153,7 +154,7 @@ def scenario_text(rng, module, cfg, hostile=False):
     params = scen.draw_params(rng, sd)
     kind = rng.choice(["valid", "valid", "valid", "valid", "broken"] + (["garbage", "truncated", "flipped"] if hostile else []))
     msg, valid = _message(rng, module, sd, params, kind)
-    ops = [{"op": "reset"}, {"op": "alloc", "arena": "a", "hex": msg.hex(), "base": rng.choice([0, 1])}]
+    ops = [{"op": "reset"}, {"op": "alloc", "arena": "a", "hex": msg.hex(), "base": rng.choice([0, 1]), "content": kind}]
     ob = {"struct": st, "params": params}
     ops.append(dict(ob, op="observe", arena="a", off=0, len=len(msg)))
     mode = rng.choice(["roundtrip", "roundtrip", "roundtrip", "literal", "literal_corrupt", "channel_fault"])
